@@ -124,6 +124,10 @@ func ConcretizeNum(n J, rep int) cty.Value {
 		f := new(big.Float).SetPrec(512).SetRat(r)
 		return cty.NumberVal(f)
 	}
+	if d, ok := n["d"]; ok {
+		r := big.NewRat(int64(asI(n["n"])), int64(asI(d)))
+		return cty.NumberVal(new(big.Float).SetPrec(64).SetRat(r))
+	}
 	q := asI(n["q"])
 	whole := q%4 == 0
 	switch rep % NumReps {
@@ -222,43 +226,43 @@ func ConcretizeUnknown(ty cty.Type, a J, rep int) cty.Value {
 func concretizeKnown(ty cty.Type, a J, rep int) cty.Value {
 	switch {
 	case ty == cty.Bool:
-		return cty.BoolVal(asB(a["v"]))
+		return cty.BoolVal(asB(asJ(a["v"])["b"]))
 	case ty == cty.Number:
 		return ConcretizeNum(asJ(a["v"]), rep)
 	case ty == cty.String:
-		s := joinRunes(asL(a["v"]))
+		s := joinRunes(asL(asJ(a["v"])["s"]))
 		if rep%2 == 1 {
 			s = norm.NFD.String(s) // cty normalizes on entry
 		}
 		return cty.StringVal(s)
 	case ty.IsListType():
-		elems := concretizeSeq(asL(a["v"]), rep)
+		elems := concretizeSeq(asL(asJ(a["v"])["l"]), rep)
 		if len(elems) == 0 {
 			return cty.ListValEmpty(ty.ElementType())
 		}
 		return cty.ListVal(elems)
 	case ty.IsSetType():
-		elems := concretizeSeq(asL(a["v"]), rep)
+		elems := concretizeSeq(asL(asJ(a["v"])["l"]), rep)
 		if len(elems) == 0 {
 			return cty.SetValEmpty(ty.ElementType())
 		}
 		return cty.SetVal(elems)
 	case ty.IsTupleType():
-		return cty.TupleVal(concretizeSeq(asL(a["v"]), rep))
+		return cty.TupleVal(concretizeSeq(asL(asJ(a["v"])["l"]), rep))
 	case ty.IsMapType():
-		m := concretizeMap(a["v"], rep)
+		m := concretizeMap(asJ(a["v"])["m"], rep)
 		if len(m) == 0 {
 			return cty.MapValEmpty(ty.ElementType())
 		}
 		return cty.MapVal(m)
 	case ty.IsObjectType():
-		return cty.ObjectVal(concretizeMap(a["v"], rep))
+		return cty.ObjectVal(concretizeMap(asJ(a["v"])["m"], rep))
 	case ty.IsCapsuleType():
 		if ty == capsules["c1"] {
-			n := len(asS(a["v"]))
+			n := len(asS(asJ(a["v"])["c"]))
 			return cty.CapsuleVal(ty, &n)
 		}
-		s := asS(a["v"])
+		s := asS(asJ(a["v"])["c"])
 		return cty.CapsuleVal(ty, &s)
 	}
 	panic("cannot concretize known value of type " + ty.GoString())
